@@ -1396,6 +1396,37 @@ impl<'a> Evaluator<'a> {
                     _ => Err("iterator place lost".into()),
                 }
             }
+            // `place.iter_mut().try_for_each(|x| ..)` / `.for_each(..)`: the loop it stands for, so that what the closure does to `x`
+            // is done to the element (see the `for x in place.iter_mut()` write-back)
+            Expr::MethodCall(mc) if (mc.method == "try_for_each" || mc.method == "for_each") && mc.args.len() == 1
+                && matches!(&*mc.receiver, Expr::MethodCall(im) if im.method == "iter_mut" && im.args.is_empty() && self.place_of(&im.receiver).is_some())
+                && matches!(&mc.args[0], Expr::Closure(cl) if cl.inputs.len() == 1 && matches!(&cl.inputs[0], syn::Pat::Ident(pi) if pi.subpat.is_none())) =>
+            {
+                let Expr::Closure(cl) = &mc.args[0] else { unreachable!() };
+                let pat = &cl.inputs[0];
+                let body = &cl.body;
+                let recv = &mc.receiver;
+                let desugared: syn::Expr = if mc.method == "try_for_each" {
+                    syn::parse_quote!({
+                        let mut __tfe = Ok(());
+                        for #pat in #recv {
+                            let __r = #body;
+                            if let Err(__e) = __r {
+                                __tfe = Err(__e);
+                                break;
+                            }
+                        }
+                        __tfe
+                    })
+                } else {
+                    syn::parse_quote!({
+                        for #pat in #recv {
+                            #body;
+                        }
+                    })
+                };
+                self.eval(&desugared, env)
+            }
             // an in-place method on a sub-slice of a list held in a place (`v[..n].sort_by_key(..)`, `v[a..b].reverse()`): the method is
             // run on a temporary holding the sub-slice, which is then written back
             Expr::MethodCall(mc) if ["sort", "sort_unstable", "sort_by", "sort_by_key", "sort_unstable_by", "sort_unstable_by_key", "reverse", "swap", "fill"].contains(&mc.method.to_string().as_str())
